@@ -13,6 +13,7 @@ import (
 
 	mocker "github.com/tencent/goom"
 	"github.com/tencent/goom/zverif/corpus"
+	"github.com/tencent/goom/zverif/corpusb"
 	"github.com/tencent/goom/zverif/vkit"
 	"pgregory.net/rapid"
 )
@@ -69,9 +70,13 @@ func apply(b *mocker.Builder, m *corpus.Method, how int, cb interface{}, ret []i
 		star = "*"
 	}
 	byName := !t.Exported || how%3 == 2
+	pkg := corpus.PkgPath
+	if m.Tag >= 9000 {
+		pkg = corpusb.PkgPath
+	}
 	switch {
 	case byName:
-		um := b.Pkg(corpus.PkgPath).ExportStruct(star + t.Name).Method(m.Name)
+		um := b.Pkg(pkg).ExportStruct(star + t.Name).Method(m.Name)
 		if cb != nil {
 			um.Apply(cb)
 			return "ExportStruct.Method.Apply"
@@ -95,6 +100,16 @@ func apply(b *mocker.Builder, m *corpus.Method, how int, cb interface{}, ret []i
 		um.As(m.As).Return(ret...)
 		return "Struct.ExportMethod.As.Return"
 	}
+}
+
+// twin returns the type of package corpusb that has the same name as t
+func twin(t *corpus.TypeInfo) *corpus.TypeInfo {
+	for _, x := range corpusb.Types {
+		if x.Name == t.Name {
+			return x
+		}
+	}
+	return nil
 }
 
 func runHist(ci interface{}, s *vkit.Stats) error {
@@ -175,10 +190,17 @@ func runHist(ci interface{}, s *vkit.Stats) error {
 			op.I = append(op.I, 0)
 		}
 		ti := vkit.Pick(op.I[4], len(corpus.Types))
-		if vkit.Pick(op.I[0], 5) == 4 {
-			ti = (ti + 1) % len(corpus.Types) // the distractor type
-		}
 		t := corpus.Types[ti]
+		switch vkit.Pick(op.I[0], 5) {
+		case 4:
+			ti = (ti + 1) % len(corpus.Types) // the distractor type
+			t = corpus.Types[ti]
+		case 3:
+			if tw := twin(t); tw != nil {
+				t = tw // the type of the same name in another package, through the same builder
+				s.Class("operation-on-same-named-type-of-another-package")
+			}
+		}
 		m := t.Methods[vkit.Pick(op.I[1], len(t.Methods))]
 		switch op.K {
 		case "apply":
@@ -228,7 +250,11 @@ func runHist(ci interface{}, s *vkit.Stats) error {
 			}
 		case "callall":
 			// every method of the type and of its neighbour type, on every instance: only what the model says is mocked may differ
-			for _, tt := range []*corpus.TypeInfo{t, corpus.Types[(ti+1)%len(corpus.Types)]} {
+			sweep := []*corpus.TypeInfo{t, corpus.Types[(ti+1)%len(corpus.Types)]}
+			if tw := twin(corpus.Types[vkit.Pick(op.I[4], len(corpus.Types))]); tw != nil {
+				sweep = append(sweep, tw)
+			}
+			for _, tt := range sweep {
 				for _, mm := range tt.Methods {
 					for inst := 0; inst < corpus.NumInstances; inst++ {
 						if err := callOne(step, mm, inst, op.I[3]+int64(inst)); err != nil {
@@ -285,7 +311,7 @@ func TestVerifC06(t *testing.T) {
 		New: func() interface{} { return &histCase{} },
 		Gen: func(rt *rapid.T) interface{} {
 			ops := rapid.SliceOfN(opGen, 2, 16).Draw(rt, "ops")
-			ty := int64(rapid.IntRange(0, len(corpus.Types)-1).Draw(rt, "type"))
+			ty := int64(rapid.SampledFrom([]int{0, 0, 1, 1, 8, 8, 2, 3, 4, 5, 6, 7, 9, 10, 11}).Draw(rt, "type"))
 			for i := range ops {
 				ops[i].I[4] = ty
 			}
